@@ -23,8 +23,8 @@ use model::*;
 use proptest::prelude::*;
 use redis_sim::replication::state::ReplicationDelta;
 use redis_sim::streaming::{
-    CompactionConfig, Compactor, ManifestManager, SimulatedClock, StreamingPersistence, WriteBuffer,
-    WriteBufferConfig,
+    CompactionConfig, Compactor, ManifestManager, SegmentReader, SimulatedClock, StreamingPersistence,
+    WriteBuffer, WriteBufferConfig,
 };
 use serde::{Deserialize, Serialize};
 use serde_json::json;
@@ -95,7 +95,6 @@ struct FlushEv {
     batch: Vec<usize>,
     ok: bool,
     err: String,
-    first_call: usize,
     calls_at_return: usize,
     expected_pending: usize,
     observed_pending: usize,
@@ -110,6 +109,10 @@ struct CompactEv {
 
 struct RunOut {
     store: TraceObjectStore,
+    /// updates confirmed by a previous incarnation of the process (restart-after-crash runs)
+    pre_confirmed: Vec<ReplicationDelta>,
+    /// (global op index, number of store calls made before the op started)
+    op_first_call: Vec<(usize, usize)>,
     deltas: Vec<ReplicationDelta>,
     flushes: Vec<FlushEv>,
     compacts: Vec<CompactEv>,
@@ -122,11 +125,27 @@ struct RunOut {
 /// Execute the workload with the process alive throughout; `faults` are transient failures by
 /// global call index. A final flush (retried) closes the workload.
 fn run(ops: &[Op], w: &Workload, faults: &[(usize, Fault)]) -> RunOut {
-    let store = TraceObjectStore::new();
+    run_from(Image::new(), ops, 0, Vec::new(), w, faults)
+}
+
+/// The same on an existing store image: a new process started after a crash executes
+/// `ops` (numbered from `op_offset`); `pre_confirmed` are the updates whose flush had returned
+/// Ok before the crash.
+fn run_from(
+    initial: Image,
+    ops: &[Op],
+    op_offset: usize,
+    pre_confirmed: Vec<ReplicationDelta>,
+    w: &Workload,
+    faults: &[(usize, Fault)],
+) -> RunOut {
+    let store = TraceObjectStore::from_image(initial);
     store.set_faults(faults);
     let arc = Arc::new(store.clone());
     let mut out = RunOut {
         store: store.clone(),
+        pre_confirmed,
+        op_first_call: Vec::new(),
         deltas: Vec::new(),
         flushes: Vec::new(),
         compacts: Vec::new(),
@@ -156,7 +175,6 @@ fn run(ops: &[Op], w: &Workload, faults: &[(usize, Fault)]) -> RunOut {
         if pending.is_empty() && p.pending_count() == 0 {
             return;
         }
-        let first_call = out.store.call_count();
         let r = run_now(p.flush());
         let calls_at_return = out.store.call_count();
         let expected = pending.len();
@@ -173,7 +191,6 @@ fn run(ops: &[Op], w: &Workload, faults: &[(usize, Fault)]) -> RunOut {
                     batch: std::mem::take(pending),
                     ok: true,
                     err: String::new(),
-                    first_call,
                     calls_at_return,
                     expected_pending: expected,
                     observed_pending: p.pending_count(),
@@ -199,7 +216,6 @@ fn run(ops: &[Op], w: &Workload, faults: &[(usize, Fault)]) -> RunOut {
                     batch,
                     ok: false,
                     err: e.to_string(),
-                    first_call,
                     calls_at_return,
                     expected_pending: expected,
                     observed_pending: observed,
@@ -209,7 +225,9 @@ fn run(ops: &[Op], w: &Workload, faults: &[(usize, Fault)]) -> RunOut {
         }
     }
 
-    for (op_idx, op) in ops.iter().enumerate() {
+    for (k, op) in ops.iter().enumerate() {
+        let op_idx = op_offset + k;
+        out.op_first_call.push((op_idx, store.call_count()));
         match op {
             Op::Push(spec) => {
                 let d = spec.build();
@@ -250,11 +268,12 @@ fn run(ops: &[Op], w: &Workload, faults: &[(usize, Fault)]) -> RunOut {
         }
     }
     // closing flush: transient failures are over after at most faults.len() attempts
+    out.op_first_call.push((op_offset + ops.len(), store.call_count()));
     for _ in 0..=faults.len() {
         if pending.is_empty() {
             break;
         }
-        do_flush(&mut p, &mut pending, &mut out, ops.len());
+        do_flush(&mut p, &mut pending, &mut out, op_offset + ops.len());
     }
     out.unflushed_at_end = pending.len();
     out
@@ -303,39 +322,59 @@ fn trace_text(r: &RunOut) -> String {
     s
 }
 
-/// Which confirmed updates are missing from `state`? (flush index, delta index)
-fn missing_confirmed(r: &RunOut, calls_done: usize, state: &State) -> Option<(usize, usize)> {
-    for (fi, f) in r.flushes.iter().enumerate() {
+/// Which confirmed update is missing from `state`? (description of its flush, the update)
+fn missing_confirmed(r: &RunOut, calls_done: usize, state: &State) -> Option<(String, ReplicationDelta)> {
+    for d in &r.pre_confirmed {
+        if !contains(state, d) {
+            return Some(("a flush that returned Ok before the crash/restart".to_string(), d.clone()));
+        }
+    }
+    for f in r.flushes.iter() {
         if !f.ok || f.calls_at_return > calls_done {
             continue;
         }
         for &di in &f.batch {
             if !contains(state, &r.deltas[di]) {
-                return Some((fi, di));
+                return Some((
+                    format!(
+                        "the flush at op #{} (returned Ok after call #{}, segment {:?})",
+                        f.op_idx,
+                        f.calls_at_return.saturating_sub(1),
+                        f.seg_key
+                    ),
+                    r.deltas[di].clone(),
+                ));
             }
         }
     }
     None
 }
 
-/// KF-C12-02 matcher: the missing update belongs to a confirmed flush whose segment key is
-/// exactly the key of an injected failing `get` issued by a compaction that returned Ok, and
-/// the crash position is after that get.
-fn matches_kf02(r: &RunOut, faults: &[(usize, Fault)], calls_done: usize, flush_idx: usize) -> bool {
+/// KF-C12-02 matcher: an injected failing `get` of a segment object was issued by a compaction
+/// that returned Ok, at or before the crash position, and the object it could not read held
+/// the missing update.
+fn matches_kf02(r: &RunOut, faults: &[(usize, Fault)], calls_done: usize, missing: &ReplicationDelta) -> bool {
     let calls = r.store.calls();
-    let Some(seg) = r.flushes[flush_idx].seg_key.as_ref() else {
-        return false;
-    };
     faults.iter().any(|(j, _)| {
-        *j < calls_done
-            && calls
-                .get(*j)
-                .map(|c| c.op == OpKind::Get && !c.ok && &c.key == seg)
-                .unwrap_or(false)
-            && r
-                .compacts
-                .iter()
-                .any(|c| c.ok && c.first_call <= *j && *j < c.calls_at_return)
+        let Some(c) = calls.get(*j) else { return false };
+        if !(*j < calls_done && c.op == OpKind::Get && c.injected && c.key.contains("/segments/")) {
+            return false;
+        }
+        if !r
+            .compacts
+            .iter()
+            .any(|c| c.ok && c.first_call <= *j && *j < c.calls_at_return)
+        {
+            return false;
+        }
+        // the object that could not be read held the missing update (directly, or as the
+        // output of an earlier compaction)
+        let img = r.store.image_before(*j);
+        let Some(data) = img.get(&c.key) else { return false };
+        match SegmentReader::open(data).and_then(|rd| rd.read_all()) {
+            Ok(ds) => contains(&fold(None, &ds), missing),
+            Err(_) => false,
+        }
     })
 }
 
@@ -360,19 +399,16 @@ fn check_image(
             ))
         }
     };
-    if let Some((fi, di)) = missing_confirmed(r, calls_done, &rec.state) {
-        if matches_kf02(r, faults, calls_done, fi) && ctx.tolerate("KF-C12-02") {
+    if let Some((which, d)) = missing_confirmed(r, calls_done, &rec.state) {
+        if matches_kf02(r, faults, calls_done, &d) && ctx.tolerate("KF-C12-02") {
             return Ok(());
         }
-        let f = &r.flushes[fi];
         return Err(format!(
-            "crash {}: recovery succeeds but update {} of the flush at op #{} (returned Ok after call #{}, segment {:?}) is not in the recovered state (recovered value of the key: {})\n    injected failures: {:?}\n    manifest: {:?}\n    store calls:\n{}",
+            "crash {}: recovery succeeds but update {} of {} is not in the recovered state (recovered value of the key: {})\n    injected failures: {:?}\n    manifest: {:?}\n    store calls:\n{}",
             what,
-            show_delta(&r.deltas[di]),
-            f.op_idx,
-            f.calls_at_return.saturating_sub(1),
-            f.seg_key,
-            peer_opt(rec.state.get(&r.deltas[di].key)),
+            show_delta(&d),
+            which,
+            peer_opt(rec.state.get(&d.key)),
             faults,
             rec.manifest.segments.iter().map(|s| s.id).collect::<Vec<_>>(),
             trace_text(r)
@@ -395,6 +431,14 @@ fn check_run(
     }
     // process keeps running: a failed flush must not make accepted updates disappear
     for f in &r.flushes {
+        if !f.ok && faults.is_empty() {
+            return Err(format!(
+                "flush at op #{} failed without any injected failure: {}\n    store calls:\n{}",
+                f.op_idx,
+                f.err,
+                trace_text(r)
+            ));
+        }
         if !f.ok && f.observed_pending != f.expected_pending {
             // KF-C12-01 matcher: flush returned Err and the buffer is empty although the
             // batch was never persisted
@@ -559,6 +603,45 @@ fn check_workload(w: &Workload, ctx: &mut CaseCtx<'_>) -> Result<(), String> {
     // 2. every crash position of the fault-free run
     let mut evals = check_run(&base, &[], 0, Some(thorough), ctx)?;
 
+    // 2b. restart after the crash: a new process opens the crash image and executes the rest of
+    //     the workload (orphan objects, a stale manifest.json.tmp and half-written objects are
+    //     now part of its world); its own call boundaries are crash positions again
+    let confirmed_before = |calls_done: usize| -> Vec<ReplicationDelta> {
+        base.flushes
+            .iter()
+            .filter(|f| f.ok && f.calls_at_return <= calls_done)
+            .flat_map(|f| f.batch.iter().map(|&d| base.deltas[d].clone()))
+            .collect()
+    };
+    for i in 0..n0 {
+        // the op during which call i was made dies with the process
+        let next_op = base
+            .op_first_call
+            .iter()
+            .filter(|(_, c)| *c <= i)
+            .map(|(k, _)| *k + 1)
+            .max()
+            .unwrap_or(0)
+            .min(ops.len());
+        let mut images = vec![(base.store.image_after(i), i + 1)];
+        if calls[i].op == OpKind::Put {
+            let len = calls[i].data.as_ref().map(|d| d.len()).unwrap_or(0);
+            images.push((base.store.image_inside_put(i, len / 2).expect("put"), i));
+        }
+        for (img, calls_done) in images {
+            let r = run_from(img, &ops[next_op..], next_op, confirmed_before(calls_done), w, &[]);
+            evals += 1 + check_run(&r, &[], 0, None, ctx).map_err(|e| {
+                format!(
+                    "after a crash {} call {} of the fault-free run and a restart that executes ops #{}..: {}",
+                    if calls_done == i { "inside" } else { "after" },
+                    calls[i].short(),
+                    next_op,
+                    e
+                )
+            })?;
+        }
+    }
+
     // 3. every single transient failure; every call boundary from the failing call on is a
     //    crash position again
     for i in 0..n0 {
@@ -608,14 +691,14 @@ fn delta_spec() -> impl Strategy<Value = DeltaSpec> {
 
 fn workload(max_ops: usize) -> impl Strategy<Value = Workload> {
     let op = prop_oneof![
-        6 => delta_spec().prop_map(Op::Push),
-        3 => Just(Op::Flush),
-        1 => Just(Op::Compact),
+        12 => delta_spec().prop_map(Op::Push),
+        8 => Just(Op::Flush),
+        4 => Just(Op::Compact),
         1 => Just(Op::Reopen),
     ];
     (
         proptest::collection::vec(op, 3..max_ops),
-        2u8..4,
+        prop_oneof![3 => Just(2u8), 1 => Just(3u8)],
         2u8..6,
         prop_oneof![2 => Just(false), 1 => Just(true)],
     )
@@ -699,15 +782,17 @@ fn kf02_case() -> (Workload, Vec<(usize, Fault)>) {
 }
 
 fn main() {
+    run_with_filtered_stderr("C12");
     let args = vcore::parse_args();
     let s = Session::new(
         "C12",
         Level::FaultEnumeration,
-        "generated workloads of push/flush/compact/reopen (3..26 ops; 4 string + 2 hash keys, 3 replicas, colliding Lamport times; \
+        "generated workloads of push/flush/compact/reopen (3..25 ops, weights 12:8:4:1; 4 string + 2 hash keys, 3 replicas, colliding Lamport times; \
          compaction configs min 2-3 / max 2-5 segments, target size 300 B or 1 MiB). Per workload the fault-free run fixes the store-call sequence; \
-         then every crash position (image after each call; inside each put at header/footer/quartile prefixes in quick, every byte prefix in thorough), \
-         every single transient failure (each call failing once; puts also failing after a half-written object) with every later call boundary of that run as a crash position, \
-         and in thorough every pair of failures. non-trivial = the fault-free run has >= 2 successful flushes (so positions between a segment put and the manifest rename, \
+         then (a) every crash position: the image after each call and inside each put (header/footer/quartile prefixes in quick, every byte prefix in thorough); \
+         (b) a restart on every such boundary image (and on a half-written put) that executes the rest of the workload, its boundaries being crash positions again; \
+         (c) every single transient failure (each call failing once; puts also failing after a half-written object) with every later call boundary of that run as a crash position; \
+         (d) thorough: every pair of failures. non-trivial = the fault-free run has >= 2 successful flushes (so positions between a segment put and the manifest rename, \
          and inside compaction when it ran, are enumerated); distinct by (store-call sequence, number of updates)",
         &args,
     );
@@ -732,9 +817,9 @@ fn main() {
             let rec = recover_image(&r.store.image()).ok()?;
             let compact_ok = r.compacts.first().map(|c| c.ok).unwrap_or(false);
             match missing_confirmed(&r, r.store.call_count(), &rec.state) {
-                Some((_, di)) if compact_ok => Some(format!(
+                Some((_, d)) if compact_ok => Some(format!(
                     "compact() returns Ok after one transient get failure, removes the unread segment from the manifest and deletes it: confirmed update {} is not recovered",
-                    show_delta(&r.deltas[di])
+                    show_delta(&d)
                 )),
                 _ => None,
             }
@@ -747,8 +832,8 @@ fn main() {
     );
     s.run_cases(
         "workloads",
-        s.scale(600, 6_000),
-        || workload(if s.thorough() { 20 } else { 26 }),
+        s.scale(3_000, 60_000),
+        || workload(if s.thorough() { 24 } else { 26 }),
         check_workload,
     );
     s.finish();
